@@ -1001,6 +1001,7 @@ func (c *Conn) sendSessionTicket(earlyData bool, extra [][]byte) error {
 		nil, suite.hash.Size())
 
 	m := new(newSessionTicketMsgTLS13)
+	psk = verifTicketNonce(c, suite, m, psk)
 
 	state := c.sessionState()
 	state.secret = psk
